@@ -30,7 +30,7 @@ func c08Alphabet(reduced bool) []amgr.Op {
 		r.Rollback = true
 		a = append(a, r)
 	}
-	a = append(a, amgr.Op{K: "lookup_all"}, amgr.Op{K: "unlock"}, amgr.Op{K: "lock"})
+	a = append(a, amgr.Op{K: "lookup_all"}, amgr.Op{K: "unlock"}, amgr.Op{K: "lock"}, amgr.Op{K: "set_synced_gap"})
 	if !reduced {
 		a = append(a, amgr.Op{K: "invalidate_cache"}, amgr.Op{K: "invalidate_cache", A: 1})
 		for _, o := range []amgr.Op{{K: "new_watch_account"}, {K: "import_script", N: 1}, {K: "next_ext", A: 1, N: 1}, {K: "extend_int", N: 1}, {K: "rename", A: 1, N: 2}, {K: "next_int", A: 1, N: 1}} {
